@@ -261,6 +261,12 @@ def run_check(prop_id: str, tier: str, fn, level: str, explanation: str, only=No
         return ctx.finish(level, explanation, cmd)
     except AnalysisError as e:
         print(f"ANALYSIS-ERROR property={prop_id}: {e}")
+        # violations decided before the analysis had to stop are still violations: report them (exit 1) rather than hide them behind exit 2
+        known = load_known()
+        if any((known.get((prop_id, f.key)) or {}).get("status") != "known" for f in ctx.findings):
+            ctx.analysed["analysis_stopped_early"] = str(e)[:300]
+            os.environ["VERIF_NO_EVIDENCE"] = "1"
+            return ctx.finish(level, explanation, cmd)
         return 2
     except Exception:  # noqa: BLE001
         traceback.print_exc(file=sys.stdout)
